@@ -476,6 +476,12 @@ def fos_cases(tier, seed):
     if tier == "thorough":
         for t in triples[:3]:
             yield {"what": "product", "kets": list(t), "k": 2}
+    # unequal B and R dimensions with non-basis factors (added after seeded change C20-3: a stale dimension list is invisible
+    # when dim_B == dim_R or the state is diagonal)
+    for dims, kets in (([2, 2, 3], ["+", "g0", "g0"]), ([3, 2, 2], ["g0", "pi8ph", "+i"]), ([2, 2, 3], ["g1", "-i", "chirp"]),
+                       ([3, 2, 2], ["ramp", "g0", "g1"])):
+        yield {"what": "product", "kets": kets, "k": 1, "dims": dims}
+        yield {"what": "product", "kets": kets, "k": 2, "dims": dims}
     yield {"what": "reject_mixed"}
     yield {"what": "reject_nondensity"}
     yield {"what": "reject_dims"}
@@ -485,10 +491,11 @@ def fos_check(case):
     from toqito.channel_metrics import fidelity_of_separability
 
     if case["what"] == "product":
-        v = [catalog.ket(2, k) for k in case["kets"]]
+        pdims = case.get("dims", [2, 2, 2])
+        v = [catalog.ket(d_, k) for d_, k in zip(pdims, case["kets"])]
         psi = np.kron(np.kron(v[0], v[1]), v[2])
         rho = catalog.proj(psi)
-        val, exc = call(fidelity_of_separability, rho, [2, 2, 2], case["k"])
+        val, exc = call(fidelity_of_separability, rho, list(pdims), case["k"])
         if isinstance(exc, ArithmeticError) or type(exc).__name__ in ("SolutionFailure", "SolverError"):
             return indet("solver did not return a solution: " + exc_text(exc))  # DESIGN 4.3: CVXOPT numerical breakdown
         if exc is not None:
